@@ -26,6 +26,29 @@ CHECKS = {
         technique='contract-based deductive verification of the splice/shift kernel (z3) + bounded runtime contracts '
                   'on every public edit entry point with CPython as oracle',
         ref='DESIGN.md section 4 C01'),
+    'C02': dict(
+        category='exploration',
+        text='Bounded: after every successful edit of the sweep (self-replacement in three code forms, donors, '
+             'removal, slice windows, docstring and line-comment puts) every query of the property (loc, bloc, '
+             'pars in all three sharing modes, own source, parent/field links, root, sibling and child navigation, '
+             'view lengths, predicates, docstring and line-comment lookup) is evaluated on every node and must equal '
+             'the answer on FST(root.src); all queries are also evaluated on every node BEFORE the edit so that every '
+             'cache is populated (no stale answers). The deductive fragment for the cache/link primitives is not '
+             'registered in this revision.',
+        note='Bounded runtime contracts, fresh FST(root.src) as oracle, norm=True. Nothing is counted as proved.',
+        technique='bounded runtime contracts (query-by-query comparison with a fresh tree, cache pre-population); '
+                  'not a proof',
+        ref='DESIGN.md section 4 C02'),
+    'C07': dict(
+        category='exploration',
+        text='Bounded only: copy()/get_slice() of every node and of sampled windows of every list field leave '
+             'source and tree (with positions) identical, the piece parses standalone under CPython to its own tree '
+             'and is structurally equal to the original sub-tree; cut == (copy, delete) on separate fresh trees; '
+             'with norm=False and norm=True.',
+        note='Bounded runtime contracts; oracles: before/after dumps, ast.parse in the natural embedding. No '
+             'deductive fragment (frame over a 10-deep call graph of handlers).',
+        technique='bounded runtime contracts (frame + faithfulness postconditions) on the real API; not a proof',
+        ref='DESIGN.md section 4 C07'),
     'C08': dict(
         category='exploration',
         text='Bounded only: replacing every node by its own copy / own source / own pure AST, and cutting every '
